@@ -1,7 +1,7 @@
 #!/venv/bin/python
 """Confirm a seeded change delivered by a sub-agent and run the checks against it.
 
-usage: verify_seeded.py <seed-dir> <k> [--checks C01,C08] [--thorough]
+usage: verify_seeded.py <seed-dir> <k> [--checks C01,C08] [--thorough] [--tag r2]
 
 <seed-dir> holds patch_<k>.diff, demo_<k>.py, meta_<k>.json.  Steps (all in a scratch git worktree of /repo under
 /tmp, removed afterwards; /repo itself is never touched):
@@ -28,7 +28,7 @@ def sh(cmd, **kw):
 
 
 def overlay(wt):
-    r = sh(["/tmp/drf_tools/build_overlay.sh", wt])
+    r = sh([os.path.join(VERIF, "tools", "build_overlay.sh"), wt])
     if r.returncode != 0:
         return None, r.stdout
     return r.stdout.strip().splitlines()[-1], r.stdout
@@ -48,6 +48,7 @@ def main():
     args = sys.argv[3:]
     checks = None
     thorough = "--thorough" in args
+    tag = args[args.index("--tag") + 1] + "-" if "--tag" in args else ""
     if "--checks" in args:
         checks = args[args.index("--checks") + 1].split(",")
     meta = json.load(open(os.path.join(seed, "meta_%s.json" % k)))
@@ -110,7 +111,7 @@ def main():
         out["caught"] = any(v["rc"] == 1 for v in results.values())
         out["ran"] = log
         if out["confirmed"]:
-            dst = os.path.join(VERIF, "seeded", "%s-%s" % (pid, k))
+            dst = os.path.join(VERIF, "seeded", "%s-%s%s" % (pid, tag, k))
             os.makedirs(dst, exist_ok=True)
             shutil.copy(patch, os.path.join(dst, "patch.diff"))
             shutil.copy(demo, os.path.join(dst, "demo.py"))
